@@ -281,8 +281,23 @@ def enum_mixed_trees(seed):
     import types
     from pkgcore.restrictions import boolean, packages, values, restriction
     rnd = random.Random(seed + 606)
-    universe = [types.SimpleNamespace(category=c, package=p, fullver=v, use=frozenset(u))
-                for c in ("sys-apps", "dev-util") for p in ("sed", "gawk") for v in ("1.0", "2.0-r1") for u in ((), ("nls",), ("nls", "acl"))]
+    from pkgcore.ebuild.cpv import Revision, ver_cmp
+    from pkgcore.ebuild import restricts as R_
+    universe = [types.SimpleNamespace(category=c, package=p, fullver=v, version=v.split("-r")[0], revision=Revision(v.split("-r")[1]) if "-r" in v else None, use=frozenset(u))
+                for c in ("sys-apps", "dev-util") for p in ("sed", "gawk") for v in ("1.0", "1.0-r1", "2.0-r1") for u in ((), ("nls",), ("nls", "acl"))]
+    alive = []   # restriction objects are cached by their arguments while alive: trees built earlier stay referenced, as they do in a running program
+
+    def version_leaf():
+        """a version restriction (package level) and its meaning, computed here from the operator and not taken from the object handed back"""
+        op, ver = rnd.choice(("=", "~", ">=", "<", ">")), rnd.choice(("1.0", "2.0"))
+        node = R_.VersionMatch(op, ver)
+
+        def f(pkg):
+            if op == "~":
+                return ver_cmp(pkg.version, None, ver, None) == 0
+            c = ver_cmp(pkg.version, pkg.revision, ver, None)
+            return {"=": c == 0, ">=": c >= 0, "<": c < 0, ">": c > 0}[op]
+        return node, f, f"version{op}{ver}"
     leafmakers = {
         "category": [lambda n: values.StrExactMatch("sys-apps", negate=n), lambda n: values.StrGlobMatch("dev", negate=n), lambda n: values.StrRegex("^sys", negate=n)],
         "package": [lambda n: values.StrExactMatch("sed", negate=n), lambda n: values.StrGlobMatch("awk", prefix=False, negate=n)],
@@ -319,6 +334,8 @@ def enum_mixed_trees(seed):
 
     def pkg_tree(depth):
         if depth == 0 or rnd.random() < 0.4:
+            if rnd.random() < 0.25:
+                return version_leaf()
             attr = rnd.choice(list(leafmakers))
             vt, vf, vs = value_tree(attr, min(depth, 2))
             neg = rnd.random() < 0.3
@@ -335,6 +352,7 @@ def enum_mixed_trees(seed):
     cases, fails = 0, []
     for _ in range(700):
         node, f, text = pkg_tree(4)
+        alive.append(node)
         for pkg in universe:
             cases += 1
             try:
@@ -348,7 +366,7 @@ def enum_mixed_trees(seed):
                                   "detail": f"match() of {text} on {pkg.category}/{pkg.package}-{pkg.fullver} use={sorted(pkg.use)} is {got}; the formula is {want}"})
                 break
     return {"name": "C06.mixed_trees.bounded_enumeration", "bound": "700 random trees of depth <= 4 mixing package-level all-of / any-of / exactly-one-of / at-most-one-of and value-level "
-            "all-of / any-of groups (0..3 members, negation anywhere) over 10 category / package / version / USE leaves; every one of 24 packages", "cases": cases, "failures": fails}
+            "all-of / any-of groups (0..3 members, negation anywhere) over 10 category / package / full-version / USE value leaves and version restrictions (= ~ >= < >), all trees kept alive; every one of 36 packages", "cases": cases, "failures": fails}
 
 
 def tasks():
